@@ -87,6 +87,32 @@ theorem cauerII_realises (x : K) (cs : List (K × Nat)) (net : Net K)
   exact (cauerII_value x cs true true (some net) h hne).1 rfl
 example : ∃ net, cauerII true true ([(0, 0), (2, 1), (3, 0)] : List (ℚ × Nat)) = some (some net) := ⟨_, rfl⟩
 
+/-- **cfi_value**: `continued_fraction_inverse_coeffs` (the forward expansion in `1/var` on the reversed
+    coefficient lists) gives coefficients `q·x^(−k)` whose continued fraction is `N/D` -/
+theorem cfi_value (N D : List K) (cs : List (K × Nat)) (x : K) (hx : x ≠ 0)
+    (h : cfiCoeffs N D = .ok cs) (hD : D ≠ [])
+    (hdef : cfDefinedSwap (2 * (max N.length D.length + max N.length D.length) + 3)
+      (revPad N (max N.length D.length)) (revPad D (max N.length D.length)) (1 / x) = true) :
+    cfVal true x cs = Poly.eval N x / Poly.eval D x := cfi_value' N D cs x hx h hD hdef
+example : cfiCoeffs ([1] : List ℚ) [1, 1] = .ok [(1, 0), (-1, 1), (-1, 0)] := by decide +kernel
+
+/-- termination of the inverse expansion (explicit obligation; `cfiCoeffs` supplies `4m + 3` fuel for lists
+    of at most `m` coefficients) -/
+theorem cfi_terminates (fuel : Nat) (N D : List K) (hN : lc N ≠ 0) (hD : lc D ≠ 0)
+    (hf : 2 * ((trim N).length + (trim D).length) + (if (trim N).length < (trim D).length then 1 else 0) ≤ fuel) :
+    cfRunSwap fuel N D ≠ .fuelOut := cfRunSwap_fuel fuel N D hN hD hf
+
+/-- Cauer II end to end: coefficients of `1/Z = D/N`, ladder from them, impedance `N/D` -/
+theorem cauerII_realises_ratfun (N D : List K) (cs : List (K × Nat)) (net : Net K) (x : K) (hx : x ≠ 0)
+    (hc : cfiCoeffs D N = .ok cs) (hN : N ≠ [])
+    (hdef : cfDefinedSwap (2 * (max D.length N.length + max D.length N.length) + 3)
+      (revPad D (max D.length N.length)) (revPad N (max D.length N.length)) (1 / x) = true)
+    (h : cauerII true true cs = some (some net)) (hl : LadderDefined true x cs) (hz : net.Z x ≠ 0) :
+    net.Z x = Poly.eval N x / Poly.eval D x := by
+  have h1 := cauerII_realises x cs net h hl hz
+  rw [cfi_value D N cs x hx hc hN hdef] at h1
+  rw [← one_div_one_div (net.Z x), h1, one_div_div]
+
 /-- a coefficient that is neither a constant nor proportional to `var` makes `cauerI` raise -/
 theorem cauerI_rejects (q : K) (k : Nat) (hk : 2 ≤ k) (hq : q ≠ 0) (rest : List (K × Nat)) (even : Bool) :
     cauerI even ((q, k) :: rest) = none := by
